@@ -39,25 +39,41 @@ def check(run):
 
 
 class FilterRun:
-    """Forwards obligations of selected rules only (lets C04 reuse the VALUE/DRAW clauses)."""
-    def __init__(self, run, rules, rename=None):
-        self._run, self._rules, self._rename = run, set(rules), rename or {}
+    """Forwards obligations of selected rules only (rules=None: all), renamed, so that one property's
+    check can include the clauses of another property it depends on."""
+    def __init__(self, run, rules, rename=None, prefix=None):
+        self._run, self._rules, self._rename, self._prefix = run, (set(rules) if rules is not None else None), rename or {}, prefix
 
     def __getattr__(self, name):
         return getattr(self._run, name)
 
-    def ok(self, rule, *a, **k):
-        if rule in self._rules:
-            self._run.ok(self._rename.get(rule, rule), *a, **k)
+    def _name(self, rule):
+        if self._prefix:
+            return f"{self._prefix}"
+        return self._rename.get(rule, rule)
 
-    def fail(self, rule, *a, **k):
-        if rule in self._rules:
-            self._run.fail(self._rename.get(rule, rule), *a, **k)
+    def _inst(self, rule, inst):
+        return f"{rule}:{inst}" if self._prefix else inst
 
-    def check(self, cond, rule, *a, **k):
-        if rule in self._rules:
-            return self._run.check(cond, self._rename.get(rule, rule), *a, **k)
+    def ok(self, rule, instance, detail=""):
+        if self._rules is None or rule in self._rules:
+            self._run.ok(self._name(rule), self._inst(rule, instance), detail)
+
+    def fail(self, rule, instance, *a, **k):
+        if self._rules is None or rule in self._rules:
+            self._run.fail(self._name(rule), self._inst(rule, instance), *a, **k)
+
+    def check(self, cond, rule, instance, *a, **k):
+        if self._rules is None or rule in self._rules:
+            return self._run.check(cond, self._name(rule), self._inst(rule, instance), *a, **k)
         return bool(cond)
+
+
+def depends_on(run, pid, rules=None):
+    """Include the obligations of property `pid` (optionally only some rules) under the rule name DEP-<pid>."""
+    import importlib
+    mod = importlib.import_module(f"sa.rules.{pid.lower()}")
+    mod.check(FilterRun(run, rules, prefix=f"DEP-{pid}"))
 
 
 def _imputer(run, prog, cls):
